@@ -1,15 +1,19 @@
 //! Bounded stand-in / failing-input search for unit U2 (slot table) — NOT a proof.
-//! Bound: every sequence of at most 4 operations over {fresh, numeric(k) for k in {0,7}, named(n) for 15 names
+//! Bound: every sequence of at most 2 operations (3 over a 10-operation subset, 4 over a 6-operation subset) over {fresh, numeric(k) for k in {0,7}, named(n) for 15 names
 //! (small/large numerals, f<number> forms around the counter and around the 2^30 boundary, ordinary names,
 //! leading zeros)}, each sequence in a fresh thread (the table is thread-local).  The fresh counter is assumed to have
-//! room (DESIGN.md section 7): names f<n> with n close to 2^30 followed by Slot::fresh() are not generated.
+//! room (fewer than 2^29 calls of Slot::fresh per thread).
 use crate::*;
 
 #[derive(Clone, Debug, PartialEq, Eq)]
 enum Key { Num(u64), F(u64), Name(String) }
-fn key_of(name: &str) -> Key {
+// reference reading of a name, given the model of the fresh counter
+fn key_of(name: &str, counter: u64) -> Key {
     if let Ok(x) = name.parse::<u32>() { if x <= u32::MAX / 4 { return Key::Num(x as u64); } }
-    if name.starts_with("f") { if let Ok(x) = name[1..].parse::<u32>() { if x <= (u32::MAX - 5) / 4 { return Key::F(x as u64); } } }
+    if name.starts_with("f") { if let Ok(x) = name[1..].parse::<u32>() {
+        let out = 4 * (x as u64) + 1;
+        if out + 4 <= u32::MAX as u64 && (out < counter || x < u32::MAX / 8) { return Key::F(x as u64); }
+    } }
     Key::Name(name.to_string())
 }
 #[derive(Clone, Debug)]
@@ -17,19 +21,20 @@ enum Op { Fresh, Numeric(u32), Named(&'static str) }
 
 fn ops() -> Vec<Op> {
     let mut v = vec![Op::Fresh, Op::Numeric(0), Op::Numeric(7)];
-    for n in ["0", "7", "07", "1073741823", "1073741824", "1073741831", "4294967295", "f0", "f1", "f2", "f536870912", "f1073741823", "x", "fx", "f"] { v.push(Op::Named(n)); }
+    for n in ["0", "7", "07", "1073741823", "1073741824", "1073741831", "4294967295", "f0", "f1", "f2", "f536870910", "f536870911", "f536870912", "f1073741822", "x", "fx", "f"] { v.push(Op::Named(n)); }
     v
 }
 
 fn run_seq(seq: &[Op]) -> Option<String> {
     let mut seen: Vec<(Key, Slot)> = Vec::new();
     let mut fresh_no = 0u64;
+    let mut counter: u64 = 1;   // model of the table's fresh counter
     for (i, op) in seq.iter().enumerate() {
         let (key, s, is_fresh) = match op {
             // a fresh slot $f<k> is the slot the name "f<k>" denotes from then on (printing and parsing it back must give it)
-            Op::Fresh => { let s = Slot::fresh(); fresh_no += 1; let t = s.to_string(); (if t.starts_with("$f") { key_of(&t[1..]) } else { Key::Name(format!("<fresh #{} printed as {}>", fresh_no, t)) }, s, true) }
+            Op::Fresh => { let s = Slot::fresh(); fresh_no += 1; let k = Key::F((counter - 1) / 4); counter += 4; (k, s, true) }
             Op::Numeric(k) => (Key::Num(*k as u64), Slot::numeric(*k), false),
-            Op::Named(n) => (key_of(n), Slot::named(n), false),
+            Op::Named(n) => { let k = key_of(n, counter); if let Key::F(x) = k { if counter <= 4 * x + 1 { counter = 4 * x + 5; } } (k, Slot::named(n), false) }
         };
         for (k2, s2) in &seen {
             if is_fresh && *s2 == s { return Some(format!("step {}: Slot::fresh() returned {} which was obtained earlier as {:?}", i, s, k2)); }
@@ -51,13 +56,15 @@ pub fn run(only: &[String]) -> Vec<String> {
     if !(want("Slot::fresh") || want("Slot::named") || want("Slot::numeric")) { return fails; }
     let label = if only.len() == 1 { only[0].clone() } else { "Slot::named".to_string() };
     let all = ops();
-    let n = all.len();
+    let small: Vec<Op> = vec![Op::Fresh, Op::Named("f0"), Op::Named("f1"), Op::Named("f536870910"), Op::Named("f536870911"), Op::Named("x")];
+    let mut medium = small.clone();
+    medium.extend([Op::Numeric(7), Op::Named("7"), Op::Named("1073741824"), Op::Named("f1073741822")]);
     for len in 1..=4usize {
+        let pool = if len == 4 { &small } else if len == 3 { &medium } else { &all };
+        let n = pool.len();
         for code in 0..n.pow(len as u32) {
             let mut c = code; let mut seq = Vec::new();
-            for _ in 0..len { seq.push(all[c % n].clone()); c /= n; }
-            // len 4: only sequences that contain a fresh and an f-name (keeps the run short)
-            if len == 4 && !(seq.iter().any(|o| matches!(o, Op::Fresh)) && seq.iter().any(|o| matches!(o, Op::Named(x) if x.starts_with('f')))) { continue; }
+            for _ in 0..len { seq.push(pool[c % n].clone()); c /= n; }
             let s2 = seq.clone();
             let r = std::thread::spawn(move || std::panic::catch_unwind(|| run_seq(&s2))).join().unwrap();
             match r {
